@@ -183,25 +183,52 @@ class Check:
         return rc
 
 
-def validate_traces(chk, module, cfg, traces, label, workers=1, timeout=1800):
-    """Batch trace validation: write traces as one JSON array, run Trace_<module>, return {tid: (line, verdict)}.
-    tid is 1-based index into traces."""
+def validate_traces(chk, module, cfg, traces, label, workers=1, timeout=1800, parallel=None):
+    """Batch trace validation: write traces as JSON arrays, run Trace_<module> (several TLC processes side by side, each with
+    one worker so that printed verdict lines stay whole), return {tid: (line, verdict)}; tid is the 1-based index into traces."""
     if not traces:
         return {}
-    path = os.path.join(chk.work, "traces_%s_%d.json" % (label, len(os.listdir(chk.work))))
-    with open(path, "w") as f:
-        json.dump(traces, f)
-    r = chk.tlc(module, cfg, "trace:" + label, workers=workers, timeout=timeout, env={"TRACE_FILE": path},
-                coverage=False)
-    verdicts = {}
-    for t in r.tuples:
-        if t[0] == "VERDICT":
-            verdicts[int(t[1])] = (int(t[2]), t[3])
-    if len(verdicts) != len(traces):
-        raise MachineryError("trace validation %s: %d verdicts for %d traces\n%s" % (label, len(verdicts), len(traces), r.out[-2000:]))
+    import threading
+    n = parallel or (6 if len(traces) >= 1500 else 1)
+    size = (len(traces) + n - 1) // n
+    parts = [(off, traces[off:off + size]) for off in range(0, len(traces), size)]
+    results = {}
+    errors = []
+    lock = threading.Lock()
+
+    def one(pi, off, part):
+        path = os.path.join(chk.work, "traces_%s_%d_%d.json" % (label, pi, len(os.listdir(chk.work))))
+        with open(path, "w") as f:
+            json.dump(part, f)
+        try:
+            r = tlc.run(module, cfg, chk.work, workers=workers, timeout=timeout, env={"TRACE_FILE": path}, coverage=False, heap="3g")
+        except Exception as e:  # noqa
+            errors.append(e)
+            return
+        got = {}
+        for t in r.tuples:
+            if t[0] == "VERDICT":
+                got[int(t[1])] = (int(t[2]), t[3])
+        if len(got) != len(part):
+            errors.append(MachineryError("trace validation %s: %d verdicts for %d traces\n%s" % (label, len(got), len(part), r.out[-2000:])))
+            return
+        with lock:
+            for k, v in got.items():
+                results[off + k] = v
+            chk.cov["states"] += r.distinct
+            chk.cov["transitions"] += r.generated
+            chk.cov["tlc_runs"].append({"label": "trace:%s[%d]" % (label, pi), "module": module, "cfg": os.path.basename(cfg), "generated": r.generated,
+                                        "distinct": r.distinct, "depth": r.depth, "violated": r.violated, "wall_s": round(r.wall, 2)})
+        os.remove(path)
+    ths = [threading.Thread(target=one, args=(pi, off, part)) for pi, (off, part) in enumerate(parts)]
+    for t in ths:
+        t.start()
+    for t in ths:
+        t.join()
+    if errors:
+        raise errors[0] if isinstance(errors[0], MachineryError) else MachineryError(str(errors[0]))
     chk.cov["traces_validated_against_impl"] += len(traces)
-    os.remove(path)
-    return verdicts
+    return results
 
 
 def main_wrapper(fn, pid, tier, seed):
